@@ -156,6 +156,13 @@ Theorem C17_remove_star_vertex_keeps_representation : forall thr (c : cplx) K (v
 Proof. exact remove_star_vertex_keeps_representation. Qed.
 Print Assumptions C17_remove_star_vertex_keeps_representation.
 
+Theorem C17_add_blocker_keeps_representation : forall (c : cplx) K (sigma : simplex),
+  closed K -> represents c K -> inc sigma -> (3 <= length sigma)%nat -> K sigma = true ->
+  (forall b, In b (blk c) -> ssub sigma b = false) ->
+  represents (add_blocker c sigma) (K_rs K sigma).
+Proof. exact add_blocker_keeps_representation. Qed.
+Print Assumptions C17_add_blocker_keeps_representation.
+
 (* non-vacuity of F: the full triangle 012 built by the transcribed operations represents the complex of the non-empty faces of
    [0;1;2], which is closed, contains [0;1;2], [0], [0;1], and has no large blocker *)
 Example C17_representation_instance : represents full_triangle K_triangle /\ closed K_triangle /\
